@@ -11,6 +11,10 @@ Decided clauses:
       justified by a round-trip test on f64::to_bits (in the function or its closures), and no float `==`/`!=` compares
       a double with a value widened back from i32 (that comparison cannot tell -0 from +0, so `a[i] = -0` would be
       stored as +0 in an int-packed array only)
+  R4  arrays under construction by the VM (array literals, spread arguments) are filled with define semantics: the
+      handlers in vm::opcode::push::array never use the [[Set]]-based Array::push / JsObject::set for an element — a setter
+      for an index on Array.prototype must not observe `[...x]` or `f(...x)`, nor leave the internal arguments array
+      non-dense (which CallSpread / NewSpread treat as an internal error)
 Not decided: transition correctness of IndexedProperties, results of the Array.prototype methods.
 """
 from facts import (cn, callee, cname, roots, op_local, taint, arg_hits, place_fields, bool_switch, bool_origin)
@@ -208,7 +212,47 @@ def r3(db, rep):
     rep.floor("R3", "f64→i32 casts in object/property_map.rs", ncast, 2)
 
 
+SET_SEMANTICS = {"Array::push": "Array.prototype.push: Set(O, index, value, true)",
+                 "JsObject::set": "[[Set]] consults the prototype chain"}
+
+
+def r4(db, rep):
+    rep.rule("R4", "the VM's array builders (vm::opcode::push::array) add elements with CreateDataProperty semantics "
+                   "(push_dense / create_data_property_or_throw), never with the [[Set]]-based Array::push / JsObject::set")
+    n = 0
+    for f in db.fns.values():
+        if not f.id.startswith("boa_engine::vm::opcode::push::array") or "{closure" in f.id:
+            continue
+        if f.name != "operation":
+            continue
+        n += 1
+        name = cname(f.id)
+        k = 0
+        for b, t in f.calls():
+            c = cn(t)
+            if c not in SET_SEMANTICS:
+                continue
+            # JsObject::set of the `length` key is how an elision bumps the length: not an element store
+            if c == "JsObject::set" and len(t["args"]) >= 2:
+                kl = op_local(t["args"][1])
+                if kl is not None and any(r[0] == "const" or (r[0] == "call" and "LENGTH" in str(r[2]))
+                                          or (r[0] == "place" and "LENGTH" in str(r[1])) for r in roots(f, kl)):
+                    continue
+                if kl is not None and "JsString" in f.locals[kl]:
+                    continue      # a string key (length), not an index
+            rep.ob("R4", f"{name}:{c.split('::')[-1]}:{k}:define-semantics", False,
+                   f"{name} adds an element with {c} ({SET_SEMANTICS[c]}) at {f.loc(b)}: a setter for that index on "
+                   f"Array.prototype is called and the element is not stored — `Object.defineProperty(Array.prototype, \"0\", "
+                   f"{{set(v){{}}}}); f(...[1,2])` ends in EnginePanic `arguments array in call spread function must be dense`",
+                   loc=f.loc(b))
+            k += 1
+        if k == 0:
+            rep.ob("R4", f"{name}:define-semantics", True, loc=f.span)
+    rep.floor("R4", "array-building opcode handlers", n, 4)
+
+
 def run(db, rep, tier):
     r1(db, rep)
     r2(db, rep)
     r3(db, rep)
+    r4(db, rep)
